@@ -32,8 +32,9 @@ type Poison struct{ Why string }
 
 // OpaqueV is an abstract object (e.g. an abstract public key) identified by an Int term.
 type OpaqueV struct {
-	Kind string
-	ID   *Term
+	Kind    string
+	ID      *Term
+	Payload Value
 }
 
 // Cell is a unit of addressable memory. Aggregates (struct, array) have Kids; leaves hold V.
@@ -42,6 +43,7 @@ type Cell struct {
 	Kids  []*Cell
 	Epoch int
 	T     types.Type
+	addr  uint64 // lazily assigned fake address (identity), see cellAddr
 }
 
 type symIdx struct {
